@@ -151,6 +151,25 @@ def shrink(suite, case, sig):
     return cur
 
 
+def first_failing_statement(err):
+    """name of the Theorem / Lemma / Example in which coqc stopped, from its 'File "...", line N' message"""
+    import re
+    ms = list(re.finditer(r'File "\./?((?:theories|props|gen)/[\w.]+\.v)", line (\d+)', err))
+    if not ms:
+        return None
+    m = ([x for x in ms if not x.group(1).startswith("props/")] or ms)[0]      # a failing dependency explains a failing import
+    path, line = os.path.join(common.COQ_DIR if hasattr(common, "COQ_DIR") else "/verif/coq", m.group(1)), int(m.group(2))
+    try:
+        lines = open(path, encoding="utf-8").read().split("\n")[:line]
+    except OSError:
+        return "%s:%d" % (m.group(1), line)
+    for l in reversed(lines):
+        mm = re.match(r"\s*(?:Theorem|Lemma|Example|Corollary|Definition|Fixpoint)\s+(\w+)", l)
+        if mm:
+            return "%s (%s:%d)" % (mm.group(1), m.group(1), line)
+    return "%s:%d" % (m.group(1), line)
+
+
 def main(argv):
     cid = argv[0].upper()
     tier = os.environ.get("VERIF_TIER", "quick")
@@ -219,8 +238,12 @@ def main(argv):
         detail = {"obligations_no_longer_checked": broken,
                   "failed_files": info.get("failed"), "tables": info["tables"],
                   "coq_error": (props["err"] or info.get("log_tail", ""))[-3000:]}
-        rep.violation(detail, "proof obligations of %s no longer check: %s" % (
-            cid, ", ".join(broken[:6]) or info.get("failed")), no_input=(total_viol == 0))
+        first = first_failing_statement((props["err"] or "") + "\n" + (info.get("log_tail") or ""))
+        if first:
+            detail["first_failing_statement"] = first
+        rep.violation(detail, "proof obligations of %s no longer check%s: %s" % (
+            cid, (" (first failing statement: %s)" % first) if first else "",
+            ", ".join(broken[:6]) or info.get("failed")), no_input=(total_viol == 0))
     rep.coverage["rule"] = getattr(mod, "RULE", "")
     rep.coverage["exhaustive"] = bool(getattr(mod, "EXHAUSTIVE", False))
     return rep.finish()
